@@ -27,6 +27,36 @@ def var_range(model: dict, v: int) -> Tuple[int, int]:
 
 def gen_skeleton(ch: Choices, flavour: str, opts: dict) -> dict:
     max_space = opts.get("max_space", 4096)
+    if flavour == "circuit" and ch.chance(1, 3, "circ.shared"):
+        # successors that are views of FEWER shared domains (s_i = d + k): tying successors together is a legal way of
+        # writing side conditions, and a shared domain then occurs several times in alldifferent / no_sub_cycle / scc
+        n = 3 + ch.choose(3, "circ.n")  # 3..5
+        m = 1 + ch.choose(n - 1, "circ.shared.m")
+        shr = []
+        for d in range(m):
+            # a third of the shared domains are instantiated from the start (successors given in the instance): several
+            # bounds of a tied domain then move in one and the same execution of a constraint
+            w = 0 if ch.chance(1, 3, "circ.shared.single") else n - 1 - ch.choose(n, "circ.shared.w")
+            a = ch.choose(5, "circ.shared.a") - 2
+            shr.append([a, a + w])
+        pairs = ch.chance(2, 3, "circ.shared.pairs")
+        if pairs:
+            # every shared domain carries two successors (the last one three when n is odd)
+            n = [4, 4, 5][ch.choose(3, "circ.pairs.n")]
+            m = n // 2
+            shr = []
+            for d in range(m):
+                w = [0, 2, 1, 3][ch.choose(4, "circ.pairs.w")]
+                a = ch.choose(3, "circ.pairs.a") - 1
+                shr.append([a, a + min(w, n - 1)])
+            order = ch.shuffle([d for d in range(m) for _ in range(2)] + ([m - 1] if n % 2 else []), "circ.pairs.order")
+        idx, off = [], []
+        for i in range(n):
+            d = order[i] if pairs else i if i < m else ch.choose(m, "circ.shared.dom")
+            a, b = shr[d]
+            idx.append(d)
+            off.append(-a + ch.choose(n - 1 - (b - a) + 1, "circ.shared.off"))
+        return {"shr": shr, "idx": idx, "off": off, "props": []}
     if flavour == "circuit":
         n = 2 + ch.choose(4, "circ.n")  # 2..5
         shr = []
@@ -388,7 +418,7 @@ def gen_model(ch: Choices, opts: Optional[dict] = None) -> dict:
     if flavour == "bigcircuit":
         flavour = "circuit"
     if flavour == "circuit":
-        n = len(model["shr"])
+        n = len(model["idx"])
         vs = list(range(n))
         model["props"].append([vs, "alldifferent", []])
         model["props"].append([vs, "no_sub_cycle", []])
@@ -401,6 +431,30 @@ def gen_model(ch: Choices, opts: Optional[dict] = None) -> dict:
             c = gen_constraint(ch, model, t, dict(opts, alias=False))
             if c:
                 model["props"].append(c)
+        if ch.chance(1, 3, "circ.views"):
+            # side constraints over VIEWS of the successors (s_i + k, several views of one successor, a free variable):
+            # a successor domain then occurs at several positions of one constraint and can become a single value only
+            # as the intersection of what the positions computed - while the circuit constraints, which wait for
+            # instantiations, watch the same domain
+            for _ in range(1 + ch.choose(3, "circ.views.n")):
+                model["idx"].append(ch.choose(len(model["shr"]), "circ.views.dom"))
+                model["off"].append(ch.choose(5, "circ.views.off"))
+            if ch.chance(1, 2, "circ.views.free"):
+                lo = ch.choose(6, "circ.views.free.lo")
+                model["shr"].append([lo, lo + ch.choose(3, "circ.views.free.size")])
+                model["idx"].append(len(model["shr"]) - 1)
+                model["off"].append(0)
+            views = list(range(n, len(model["idx"])))
+            for k_ in range(1 + ch.choose(2, "circ.views.nc")):
+                with ch.scope(f"cv{k_}"):
+                    t = ch.pick(["alldifferent", "affine_eq", "affine_leq", "max_eq", "min_eq", "lexicographic_leq",
+                                 "element_liv", "count_eq", "max_leq", "min_geq", "affine_geq"], "t")
+                    c = gen_constraint(ch, model, t, dict(opts, alias=True, alias_num=2))
+                    if c and not any(v in views for v in c[0]):
+                        c[0][ch.choose(len(c[0]), "force")] = views[ch.choose(len(views), "force.v")]
+                    if c:
+                        model["props"].append(c)
+            model["circuit_views"] = len(views)
         model["props"] = ch.shuffle(model["props"], "circ.order") if ch.chance(1, 2, "circ.shuffle") else model["props"]
         return model
     pool = [t for t in (types or ALL_TYPES) if (flavour == "bool" or t not in BOOL_TYPES or True)]
@@ -419,6 +473,10 @@ def gen_model(ch: Choices, opts: Optional[dict] = None) -> dict:
             c = gen_constraint(ch, model, t, opts)
         if c is not None:
             model["props"].append(c)
+    if opts.get("custom_checker") and len(model["idx"]) >= 2 and ch.chance(1, 5, "checker"):
+        # a registered checking constraint x != y that listens to instantiations only (nucsio.register_custom)
+        for _ in range(1 + ch.choose(2, "checker.n")):
+            model["props"].append([pick_vars(ch, model, 2, ch.chance(1, 3, "checker.alias")), "ground_neq", []])
     if ch.chance(1, 12, "orphan"):
         # a shared domain that no variable refers to (a Problem built with explicit indices may skip one, and
         # add_variable always appends the domain it is given, even for a view): it is a decision domain like any
